@@ -4,5 +4,6 @@ CONSTANTS
   Byz <- B12
   Payloads <- Pay2
   ByzDigests <- D3
+  PrintMod = 8
   AllowOmit = FALSE
 INVARIANTS Agreement Validity Consistency PrintBehaviour
